@@ -63,6 +63,12 @@
     PRIMARY KEY, whatever dropped-column list the index walk is called with (reader fidelity on table-level keys,
     C05.primary_key_table_level).
 
+  * `tables_from_scripts` — **the table clause**: `Diff` and `MigrationUp` return (C09), and the CREATE TABLE / DROP
+    TABLE statements of the printed migration are exactly `Abs.Idx.emitKeep` of the two lists of table names — a table
+    only the new schema has is created, in the new schema's order, one only the old schema has is dropped, one both
+    have gets neither —, which turns the old set of tables into the new one (Proofs/TablesClause: what the two table
+    loops of `Migration.Diff` leave, and the table-level content of each printer).
+
   Missing for `Statement_partial`: the converse attribute lemma (a MODIFY carrying the new definition for exactly the
   columns whose type or options differ), the primary key, and the lift from one table's lists to the whole schema.  Those parts are covered by the correspondence run and
   by the executable predicate `Spec.c01` evaluated on the implementation's printed migration on every check.
@@ -73,6 +79,7 @@ import SqlizeModel.Proofs.MergeRefine
 import SqlizeModel.Proofs.EndToEnd
 import SqlizeModel.Proofs.EndToEndElems
 import SqlizeModel.Proofs.Untouched
+import SqlizeModel.Proofs.TablesClause
 import SqlizeModel.Impl.Api
 import SqlizeModel.Spec.Scope
 
@@ -174,6 +181,28 @@ theorem equal_column_untouched (g : Globals) (hg : g.dialect = .mysql) (rc : Boo
     ∃ td ∈ d.tables, td.name = t ∧ td.action = .none ∧
       ∀ up, ∀ s ∈ (Table.walkCols g t up [] td.cols).1, stmtCol s ≠ some cN.name :=
   Sqlize.equal_column_untouched g hg rc old new dbO dbN ho hn hpo hpn heo hen d hd t tbO tbN hfo hfn cN cO hcN hcO hname htyp hopts
+
+/-- table clause of C01 from scripts to printed statements (MySQL reader model) -/
+theorem tables_from_scripts (g : Globals) (hg : g.dialect = .mysql) (rc : Bool) (old new : List Stmt) (dbO dbN : DB)
+    (ho : old.all Stmt.elemSafe = true) (hn : new.all Stmt.elemSafe = true)
+    (heo : execAll rc [] old = some dbO) (hen : execAll rc [] new = some dbN)
+    (hdef : ∀ tb ∈ dbO ++ dbN, tb.name ≠ Migration.defaultMigrationTable) :
+    ∃ d out, loadAndDiff g old new = .ok d ∧ d.migrationUp g = .ok (d, out) ∧
+      out.flatten.filterMap tblStmt = Abs.Idx.emitKeep (dbN.map (·.name)) (dbO.map (·.name)) ∧
+      ∃ R, Abs.Idx.execAll (dbO.map (·.name)) (out.flatten.filterMap tblStmt) = some R ∧ R.Perm (dbN.map (·.name)) :=
+  tables_end_to_end g hg rc old new dbO dbN ho hn heo hen hdef
+
+-- non-vacuity of `tables_from_scripts`: one table kept, one dropped, two created
+def exOldT2 : List Stmt :=
+  [.createTable "keep" 0 [{ name := "a", typ := "int(11)" }] [], .createTable "gone" 0 [{ name := "x", typ := "text" }] []]
+def exNewT2 : List Stmt :=
+  [.createTable "n1" 0 [{ name := "y", typ := "text" }] [], .createTable "keep" 0 [{ name := "a", typ := "int(11)" }] [],
+   .createTable "n2" 0 [{ name := "z", typ := "text" }] [], .createIndex "n2" "i" ["z"] false ""]
+example : exOldT2.all Stmt.elemSafe = true ∧ exNewT2.all Stmt.elemSafe = true ∧
+    (execAll true [] exOldT2).isSome = true ∧ (execAll true [] exNewT2).isSome = true := by decide
+example : ∃ d, loadAndDiff {} exOldT2 exNewT2 = .ok d ∧
+    (d.migrationUp {}).toOption.map (fun r => r.2.flatten.filterMap tblStmt) =
+      some [.create "n1", .create "n2", .drop "gone"] := ⟨_, by rfl, by rfl⟩
 
 /-- an unchanged table-level primary key gets no ADD / DROP PRIMARY KEY -/
 theorem equal_primary_key_untouched (g : Globals) (hg : g.dialect = .mysql) (rc : Bool)
